@@ -220,7 +220,7 @@ func init() {
 						limitTargets = s
 					}
 				case mentions(st.Cond, "s.gnmiSetSizeLimit"):
-					if s, ok := leanCond(st.Cond, map[string]string{"s.gnmiSetSizeLimit": "limit", "len:updates": "nUpdates", "len:removes": "nRemoves"}); ok {
+					if s, ok := leanCond(st.Cond, map[string]string{"s.gnmiSetSizeLimit": "limit", "len:updates": "nUpdates", "len:removes": "nRemoves", "operations": "nOps"}); ok {
 						limitOps = s
 					}
 				}
@@ -247,7 +247,7 @@ func init() {
 		fmt.Fprintf(&out, "/-- `Set` refuses when this holds of the three list lengths -/\ndef setEmptyGuard (nUpdate nReplace nDelete : Int) : Bool := %s\n\n", emptyGuard)
 		fmt.Fprintf(&out, "/-- the size limit is enforced when this holds -/\ndef setLimitOn (limit : Int) : Bool := %s\n\n", limitOn)
 		fmt.Fprintf(&out, "/-- under a limit, `Set` refuses when this holds of the number of targets -/\ndef setLimitTargetsGuard (nTargets limit : Int) : Bool := %s\n\n", limitTargets)
-		fmt.Fprintf(&out, "/-- under a limit, `Set` refuses a target when this holds of its distinct update paths and its deletes -/\ndef setLimitOpsGuard (nUpdates nRemoves limit : Int) : Bool := %s\n\n", limitOps)
+		fmt.Fprintf(&out, "/-- under a limit, `Set` refuses a target when this holds of the request's operations, the target's distinct update paths and its deletes -/\ndef setLimitOpsGuard (nOps nUpdates nRemoves limit : Int) : Bool := %s\n\n", limitOps)
 
 		// Subscribe: field selections through a field of message type (x.Prefix.Target, x.Path.Target):
 		// each is a nil dereference waiting for a request that leaves the message out
